@@ -66,6 +66,7 @@ fn main() {
         "crc" => drv_tables::crc(&mut out, seed, thorough),
         "utils" => drv_tables::utils(&mut out, seed, thorough),
         "memops" => drv_tables::memops(&mut out, seed, thorough, scn.as_deref()),
+        "memfaults" => drv_rx::memfaults(&mut out, seed, thorough),
         _ => {
             eprintln!("unknown driver {}", driver);
             std::process::exit(2);
